@@ -1,7 +1,8 @@
 """Setting up a surrogate-outcome transport problem (Correa & Bareinboim 2020): which variables get a transport node, the transport
 diagram of a source domain, and the query handed to TRSO.  PARSED and compared as terms; never imported or executed."""
 
-from y0.algorithm.transport import TARGET_DOMAIN, TransportQuery, create_transport_diagram, get_nodes_to_transport, transport_variable
+from y0.algorithm.transport import TARGET_DOMAIN, TransportQuery, activate_domain_and_interventions, create_transport_diagram, get_nodes_to_transport, transport_variable
+from y0.dsl import Distribution, Fraction, One, PopulationProbability, Probability, Product, Sum
 from y0.graph import NxMixedGraph
 
 
@@ -42,3 +43,30 @@ def transport_diagram(graph, nodes_to_transport):
     for node in nodes_to_transport:
         rv.add_directed_edge(transport_variable(node), node)
     return rv
+
+
+def activated(expression, interventions, domain):
+    # TRSO line 6/7: the estimand found inside source domain `domain` under the experiment do(interventions) is re-read as a statement about
+    # that domain's EXPERIMENTAL distribution: every probability term -- its children AND its conditioning set -- moves into that world
+    # (variables held fixed by the experiment drop out; a term with no child left is 1), sums keep their ranges, products and fractions are
+    # activated part by part
+    if isinstance(expression, Probability):
+        if not isinstance(expression, PopulationProbability):
+            raise TypeError
+        children = set(expression.children) - interventions
+        if not children:
+            return One()
+        distribution = Distribution.safe(children)
+        parents = set(expression.parents) - interventions
+        if parents:
+            distribution = distribution.given(parents)
+        return PopulationProbability(population=domain, distribution=distribution).intervene(interventions)
+    if isinstance(expression, Sum):
+        return Sum.safe(activate_domain_and_interventions(expression.expression, interventions, domain), expression.ranges)
+    if isinstance(expression, Fraction):
+        numerator = activate_domain_and_interventions(expression.numerator, interventions, domain)
+        denominator = activate_domain_and_interventions(expression.denominator, interventions, domain)
+        return (numerator / denominator).simplify()
+    if isinstance(expression, Product):
+        return Product.safe(activate_domain_and_interventions(e, interventions, domain) for e in expression.expressions)
+    raise NotImplementedError
